@@ -343,6 +343,9 @@ class TransactionManager(Elaboratable):
             method = conditional_to_infect.pop()
             ready_dependent = {relation.end for relation in method.relations if relation.ready_dependent}
             for dep in method.simultaneous_list:
+                if dep in ret and any(r.end is method and r.ready_dependent for r in dep.relations):
+                    # dep is the (already infected) body enclosing this nested transaction
+                    continue
                 if dep in ready_dependent and dep in method_map.transactions:
                     # dep is simultaneous with conditionally called method - all called methods of dep are also
                     # conditionally called
@@ -350,7 +353,10 @@ class TransactionManager(Elaboratable):
                         if called_method not in ret:
                             ret.add(called_method)
                             conditional_to_infect.append(called_method)
-                    ret.add(dep)
+                    if dep not in ret:
+                        # transactions nested in dep (e.g. branches of a nested condition) depend on it in turn
+                        ret.add(dep)
+                        conditional_to_infect.append(dep)
                 else:
                     # dep is not ready dependent - semantics unclear
                     raise RuntimeError(
